@@ -355,6 +355,9 @@ class Models:
             return SFloat(fadd(a, b), shape=("add", l, r))
         if op is ast.Sub:
             raise Unsupported("float subtraction")
+        if op in (ast.LShift, ast.RShift, ast.BitAnd, ast.BitOr, ast.BitXor):
+            # CPython: bitwise and shift operators are not defined for float
+            self.raise_(TypeError, f"unsupported operand type(s) for {op.__name__}: float")
         raise Unsupported(f"float operator {op.__name__}")
 
     def unaryop(self, op, v, fr):
@@ -1706,7 +1709,10 @@ class Models:
                 self.raise_(ValueError, "invalid literal for int() with base 10: 'a'..'f'")
             return mk_int(d)
         if isinstance(v, (SBytes, SStr)):
-            raise Unsupported("int(symbolic text)")
+            # int() of text the engine knows nothing about: either it is not a numeral (ValueError) or some integer
+            if self.st.choice(2, "int-of-text") == 0:
+                self.raise_(ValueError, "invalid literal for int() with base 10")
+            return SInt(z3.Int(fresh_name("int_of_text")))
         if is_symv(v):
             self.raise_(TypeError, "int() argument must be a string, a bytes-like object or a real number")
         try:
